@@ -25,4 +25,13 @@ def tailM {R : Type} (data : Bytes) (rs tr : Nat) (ex : Bool) (i : Nat) (bits : 
   (if ex then (if bits.length < 8 then none else some (signed8 bits)) else some (-1)).bind fun ty =>
   some ({ bits := bits, refs := uintsAt data i rs tr, type := ty, result := none }, i + tr * rs)
 
+/-- the callback the regenerated `deserialize` is given when the hand model is given `mk`: the Python constructor receives the
+children as a list that may contain `None` (a self reference picks up the not yet set `'result'`); every cell constructor
+raises on a `None` child, otherwise it is `mk` on the children. -/
+def liftMk {R : Type} (mk : Bits → List R → Int → Option R) (bits : Bits) (refs : List (Option R)) (ty : Int) : Option R :=
+  (refs.mapM id).bind fun rs => mk bits rs ty
+
+/-- a cell record whose `'result'` has been set. -/
+def setRes {R : Type} (c : RawCell) (r : R) : CellOut R := { bits := c.bits, refs := c.refs, type := c.type, result := some r }
+
 end TonVerif.Generated.BocCells
